@@ -88,8 +88,8 @@ func c10Expect(entry string, frame []byte) (int, int) {
 
 func runC10(w *vx.W) {
 	thorough := !w.Quick()
-	singles := []namedStream{sMin12, sMin14, sMin14z, sAct3, sAct3BE, sSet, sMonState, sZero}
-	chains := []namedStream{sChain2, sChain2b, sChain3, sChainState, sChainState3, sChainZero}
+	singles := []namedStream{sMin12, sMin14, sMin14z, sAct3, sAct3BE, sSet, sMonState, sZero, sDev}
+	chains := []namedStream{sChain2, sChain2b, sChain3, sChainState, sChainState3, sChainZero, sChainDev}
 	entries := []string{"Decode", "CheckIntegrity", "CheckIntegrityHeaderOnly", "DecodeHeader", "DecodeHeaderAndFileID"}
 	states := map[uint64]struct{}{}
 
@@ -175,6 +175,14 @@ func runC10(w *vx.W) {
 					break
 				}
 				runEnv(c10Case{s, sMin12.B, e}, ob, 2)
+			}
+		}
+	}
+	// the same single streams as the *whole* input (no sentinel): the last bytes may arrive together with io.EOF
+	for _, s := range []namedStream{sMin12, sAct3, sDev} {
+		for _, e := range []string{"Decode", "CheckIntegrity"} {
+			for _, ob := range []bool{false, true} {
+				runEnv(c10Case{s, nil, e}, ob, 2)
 			}
 		}
 	}
